@@ -819,7 +819,14 @@ class Exec:
                             "save", "restart_clean"):
                         # saving over a directory fails by design; not our subject
                         _real_shutil.rmtree(self.cache)
-                    self.op(o)
+                    try:
+                        self.op(o)
+                    except (SimCrash, AssertionError):
+                        raise
+                    except Exception as e:  # noqa: typhon failed in a fault-free step
+                        self.V.append(_viol(
+                            f"C15/{o['op']}/exception/{type(e).__name__}",
+                            f"operation {o['op']}: {type(e).__name__}: {e}"[:300]))
                 return False
             except SimCrash:
                 raise AssertionError("harness: crash escaped a branch")
